@@ -83,7 +83,10 @@ def observe(files):
         if sorted(m.value for m in cb.all_measurements()) != sorted(so_far) or cb.total_loc() != sum(so_far) or len(cb.all_files()) != i + 1:
             out.append(("measurement-view-stale-or-wrong", {"view": "all_measurements"}, f"after adding {p} (step {i}): {sorted(m.value for m in cb.all_measurements())} expected {sorted(so_far)}"))
             break
-    cb.aggregate()
+    try:
+        cb.aggregate()
+    except Exception as e:  # noqa - building the folder tree of a well-formed set of files must not fail
+        return {"tree": {}, "totals": {}}, out + [("aggregate-raises", {"error": type(e).__name__}, f"aggregate() raises {e!r} for {[p for p, _ in files][-6:]}")]
     from codelimit.common.report.Report import Report as _R
 
     prof = [0, 0, 0, 0]
@@ -142,7 +145,9 @@ def large_history(n, layout):
     hist = [("pkg/core.py", v(2))]
     if layout == "walk":
         hist += [(f"pkg/gen/m{i:03d}/x.py", v(i)) for i in range(n)]
-        hist += [("pkg/util/x.py", v(1)), ("pkg/late.py", v(3)), ("pkg/gen/m000/y.js", v(2)), ("top.py", v(1))]
+        hist += [("pkg/util/x.py", v(1)), ("pkg/late.py", v(3)), ("pkg/gen/m000/y.js", v(2)), ("top.py", v(1)),
+                 # folder names that repeat along one path, or are a prefix of an earlier component
+                 ("app/core/plugins/core/loader.py", v(2)), ("app/core/x.py", v(1)), ("lib/utils/util/helpers.py", v(3)), ("lib/util/lib/util/z.js", v(2))]
     else:  # two distant folders alternate while many others are created in between
         for i in range(n):
             hist.append((f"a/b{i:03d}/c/x.py", v(i)))
